@@ -11,6 +11,24 @@ From Flocq Require Import Core IEEE754.BinarySingleNaN.
 From Errdef Require Import Base.Str Base.Outcome Model.Convert Check.C11 Proofs.C11Proofs.
 Local Open Scope Z_scope.
 
+(* ---- the model is regenerated from the source ------------------------------------------ *)
+
+(* conv_f64 / conv_i64 are interpreters of Gen/Bounds.v, which srcgen extracts from
+   tryConvertFloat64 / tryConvertInt64 on every run (kinds per clause, guards in source order with
+   their comparison operators and operands, the per-kind (min, max) constants evaluated to integers,
+   the operand of the final reflect conversion).  On the current source they coincide, for every
+   kind and every input, with the hand-written transcription every theorem below is proved about;
+   an edit of a constant, an operator, the guard order or the converted operand makes this fail
+   (and with it every theorem of this file), while the interpreter keeps following the code. *)
+Theorem C11_model_is_source : forall k,
+  (forall bits, conv_f64 k bits = conv_f64_ref k bits) /\ (forall z, conv_i64 k z = conv_i64_ref k z).
+Proof. exact (fun k => conj (conv_f64_gen k) (conv_i64_gen k)). Qed.
+Print Assumptions C11_model_is_source.
+
+Theorem C11_source_shape_recognised : Bounds.bounds_matched = true.
+Proof. reflexivity. Qed.
+Print Assumptions C11_source_shape_recognised.
+
 (* ---- float64 -> integer kinds ---------------------------------------------------------- *)
 
 (* Full statement (FALSE of the code, defect K6): an accepted float64 is finite, its real value
